@@ -703,8 +703,8 @@ class LeastSquare:
         numbtype = Fraction if (numbtype is int) else numbtype
         nptsinteg = olddegree + newdegree + 3  # Number integration points
         if numbtype is Fraction:
-            nodes0to1 = NodeSample.closed_linspace(nptsinteg)
-            integrator = IntegratorArray.closed_newton_cotes(nptsinteg)
+            nodes0to1 = NodeSample.open_linspace(nptsinteg)
+            integrator = IntegratorArray.open_newton_cotes(nptsinteg)
         else:
             nodes0to1 = NodeSample.chebyshev(nptsinteg)
             integrator = IntegratorArray.chebyshev(nptsinteg)
@@ -1215,7 +1215,7 @@ class MathOperations:
         nptseval = 2 * (degreec + 1)
         nptstotal = nptseval * (len(allknots) - 1)
         allevalnodes = np.empty(nptstotal, dtype="object")
-        nodes0to1 = NodeSample.closed_linspace(nptseval)
+        nodes0to1 = NodeSample.open_linspace(nptseval)
         for i in range(len(allknots) - 1):
             start, end = allknots[i : i + 2]
             nodes = tuple(start + (end - start) * node for node in nodes0to1)
